@@ -98,6 +98,19 @@ def make_files(rng, d, kind, dirty=False):
                 else:
                     # an empty tag column in the middle of the line (two consecutive tabs) next to a haplotype tag
                     frs[0]["tags"] = frs[0]["tags"] + ["", "Hap1"]
+    if kind == "cuttags":
+        # EVERY row of a painted scaffold carries the same two or three extra tags (haplotype, name, Singleton), so that contigs CUT
+        # for such a row inherit several tags at once (their order in the output must not come from a set)
+        ptx = R.decorate_tags(rng, ptx)
+        names = ["X", "Y", "W", "Z", "B1", "X1", "A7", "Q", "R2"]
+        rng.shuffle(names)
+        for ps in ptx:
+            frs = [f for f in ps["rows"] if f["t"] == "F"]
+            if frs and "Painted" in frs[0]["tags"] and not any(t in names or t.lower().startswith("hap") for f in frs for t in f["tags"]):
+                extra = [rng.choice(["Hap1", "Hap2"]), names.pop()] + (["Singleton"] if rng.random() < 0.5 else [])
+                rng.shuffle(extra)
+                for f in frs:
+                    f["tags"] = f["tags"] + extra
     if kind == "tagged":
         ptx = R.decorate_tags(rng, ptx)
         # several tags on one scaffold: exercises set iteration order
@@ -147,6 +160,46 @@ def scenario_subprocess(ctx, sc, tag):
         elif snap != ref:
             diff = [n for n in set(snap) | set(ref) if snap.get(n) != ref.get(n)]
             out.oracle_fail("hashseed-cwd-buffer-cache", inp, f"output files differ from the first run of the same inputs: {sorted(diff)[:4]}")
+
+
+BATCH = Path(__file__).resolve().parent.parent / "c17_batch.py"
+
+
+def scenario_hashseed_batch(ctx, sc, tag, count, seeds):
+    """MANY input pairs per hash seed: one interpreter per PYTHONHASHSEED runs pretext-to-asm on all of them (same order, so the in-process
+    history is the same in every interpreter and only the hash seed differs); every output file is compared byte for byte across seeds"""
+    rng, out = ctx.rng, ctx.out
+    base = sc.path / f"c17_{next(tag)}"
+    cases = base / "cases"; cases.mkdir(parents=True)
+    kinds = []
+    for k in range(count):
+        d = cases / str(k); d.mkdir()
+        kind = rng.choice(["cuttags", "cuttags", "multitag", "tagged", "script", "tie"])
+        kinds.append(kind)
+        make_files(rng, d, kind)
+    snaps = {}
+    for hs in seeds:
+        o = base / f"out_{hs}"
+        env = dict(os.environ); env["PYTHONHASHSEED"] = str(hs); env.pop("PYTHONPATH", None)
+        p = subprocess.run([sys.executable, str(BATCH), str(common.REPO / "src"), str(cases), str(o)], env=env, cwd=str(base),
+                           stdout=subprocess.PIPE, stderr=subprocess.PIPE, timeout=1200)
+        if p.returncode != 0:
+            raise RuntimeError(f"c17_batch.py failed: {p.stderr.decode()[-400:]}")
+        snaps[hs] = {k: snapshot(o / str(k), skip=("in.agp", "ptx.agp"), norm=(o / str(k),)) for k in range(count)}
+    ok = 0
+    for k in range(count):
+        ref = snaps[seeds[0]][k]
+        ok += ref.get("exit") == b"0"
+        for hs in seeds:
+            inp = {"scenario": "hashseed-batch", "hashseed": hs, "kind": kinds[k], "pretext": (cases / str(k) / "ptx.agp").read_text()[:2500],
+                   "input": (cases / str(k) / "in.agp").read_text()[:800]}
+            out.case("hashseed-batch", inp, ("batch", kinds[k], hs, ref.get("exit", b"?").decode()[:12]))
+            if snaps[hs][k] != ref:
+                diff = sorted(n for n in set(snaps[hs][k]) | set(ref) if snaps[hs][k].get(n) != ref.get(n))
+                a, b = ref.get(diff[0], b""), snaps[hs][k].get(diff[0], b"")
+                line = next((f"{x!r} vs {y!r}" for x, y in zip(a.splitlines(), b.splitlines()) if x != y), "")
+                out.oracle_fail("hashseed-batch", inp, f"output files differ between PYTHONHASHSEED={seeds[0]} and {hs}: {diff[:4]} first differing line {line[:300]}")
+    out.notes.append(f"hashseed-batch: {ok}/{count} input pairs ran to completion (exit 0); the others fail identically under every seed")
 
 
 def scenario_formats(ctx, sc, tag):
@@ -374,6 +427,7 @@ def run(ctx):
     with F.Scratch() as sc:
         for _ in range(10 if ctx.thorough else 4):
             scenario_subprocess(ctx, sc, tag)
+        scenario_hashseed_batch(ctx, sc, tag, 400 if ctx.thorough else 60, [0, 1, 2, 3, 7, 12345] if ctx.thorough else [0, 1, 7, 12345])
         for _ in range(4 if ctx.thorough else 1):
             scenario_formats(ctx, sc, tag)
         for _ in range(6 if ctx.thorough else 2):
